@@ -12,9 +12,9 @@ CONSTANTS
   MaxOps = 2
   MaxRetry = 1
   ContentSel = {1, 2, 3, 4, 5, 6, 7, 8, 9, 10, 11, 12}
-  ProfileSel = {1, 2, 3, 4}
+  ProfileSel = {1, 2, 3, 4, 7, 8}
   UseJson = TRUE
-  BoundarySel = {1, 2, 3}
+  BoundarySel = {1, 2, 3, 4, 5}
   PreSel = {1, 2, 3}
   EpiSel = {1, 2, 3}
   FinSel = {TRUE, FALSE}
@@ -24,5 +24,6 @@ CONSTANTS
   EditVals = {}
   Depth = 14
 INVARIANT ParseOfEncodeIsForm
+INVARIANT QuotedRoundTrip
 INVARIANT LimitsExactAtThreshold
 INVARIANT Emit
